@@ -2,6 +2,7 @@
 
 mod adv;
 mod alloc;
+mod campaign;
 mod checks;
 mod circuits;
 mod exec;
